@@ -24,9 +24,17 @@ from . import bodyreq
 PREFIXES = (REPO.rstrip('/') + '/ombott/',)
 
 
-def maybe_wrap(rng, case, share, est_steps=900, ok=None):
+def cfg_sig(c):
+    """What decides the configuration of the shared application of a bodyreq-based twin run."""
+    return (c.get('B'), c.get('M'), c.get('errors_map'))
+
+
+def maybe_wrap(rng, case, share, est_steps=900, ok=None, gen_other=None, sig=cfg_sig):
     """With probability `share`, turn a freshly generated case into a twin case (`ok(case)` can exclude
-    cases whose traced length would be out of proportion, e.g. a 60 kB body read byte-wise)."""
+    cases whose traced length would be out of proportion, e.g. a 60 kB body read byte-wise).  With `gen_other`
+    (rng -> another freshly generated case) half of the twin runs are heterogeneous: the further threads serve
+    other seeded cases that need the same application configuration (`sig`), found by rejection sampling -
+    identical requests cannot show interference that overwrites a value with the very same value."""
     if ok is not None and not ok(case):
         return case
     if os.environ.get('VERIF_TWIN_SHARE'):
@@ -36,7 +44,21 @@ def maybe_wrap(rng, case, share, est_steps=900, ok=None):
     n = 2 if rng.random() < 0.8 else 3
     # a fifth of the twin runs is pre-empted between bytecode instructions instead of between lines
     gran = 'instr' if rng.random() < 0.2 else 'line'
-    return {'twin': case, 'n': n, 'gran': gran, 'plan': gen_plan(rng, est_steps * n * (9 if gran == 'instr' else 1), n)}
+    out = {'twin': case, 'n': n, 'gran': gran, 'plan': gen_plan(rng, est_steps * n * (9 if gran == 'instr' else 1), n)}
+    if gen_other is not None and rng.random() < 0.5:
+        want = sig(case)
+        others = []
+        for _ in range(n - 1):
+            found = None
+            for _attempt in range(25):
+                c = gen_other(rng)
+                if 'twin' not in c and (ok is None or ok(c)) and sig(c) == want:
+                    found = c
+                    break
+            others.append(found)
+        if any(o is not None for o in others):
+            out['others'] = others
+    return out
 
 
 def run(inner_run, case, *, shared_bodyreq=True, before=None, after=None, step_cap=6_000_000, cap_violation=None):
@@ -44,6 +66,8 @@ def run(inner_run, case, *, shared_bodyreq=True, before=None, after=None, step_c
     returns); None = exceeding the cap is a harness error (no legitimate run of the module comes near it)."""
     inner = case['twin']
     n = case.get('n', 2)
+    others = case.get('others') or []
+    inners = [inner] + [(others[i] if i < len(others) and others[i] is not None else inner) for i in range(n - 1)]
     results = [None] * n
     gran = case.get('gran', 'line')
     if gran == 'instr':
@@ -61,7 +85,7 @@ def run(inner_run, case, *, shared_bodyreq=True, before=None, after=None, step_c
         def fn():
             inflight.add(i)
             try:
-                results[i] = inner_run(inner, i)
+                results[i] = inner_run(inners[i], i)
             finally:
                 inflight.discard(i)
         return fn
@@ -106,7 +130,7 @@ def run(inner_run, case, *, shared_bodyreq=True, before=None, after=None, step_c
             cls = v['cls'] + '@twin'
             if cls not in seen:
                 seen.add(cls)
-                res['viol'].append({'cls': cls, 'msg': f'[thread {i} of {n} concurrent identical requests] ' + v['msg'],
+                res['viol'].append({'cls': cls, 'msg': f'[thread {i} of {n} concurrent {"" if others else "identical "}requests] ' + v['msg'],
                                     'detail': v.get('detail', {})})
         res['fired'].update(r['fired'])
         res['probes'].update(r['probes'])
@@ -115,10 +139,11 @@ def run(inner_run, case, *, shared_bodyreq=True, before=None, after=None, step_c
     res['probes']['twin_runs'] += 1
     res['probes']['twin_plan:' + case['plan']['mode']] += 1
     res['probes']['twin_gran:' + gran] += 1
+    res['probes']['twin_kind:' + ('heterogeneous' if others else 'identical')] += 1
     res['steps'] += s.step
     res['states'] = {a + ' | ' + b for a, b in s.switch_locs}
     res['nontrivial'] = overlap[0] > 0
-    res['key'] = digest([inner, n, s.executed])
+    res['key'] = digest([inners, n, s.executed])
     res['digest'] = log.digest()
     exp = dict(case)
     exp['plan'] = s.explicit_plan()
@@ -130,6 +155,10 @@ def shrink_candidates(case, inner_candidates):
     if case.get('gran', 'line') != 'line':
         c = dict(case)
         c['gran'] = 'line'
+        yield c
+    if case.get('others'):
+        c = dict(case)
+        c.pop('others')
         yield c
     for p in simpler_plans(case['plan']):
         c = dict(case)
@@ -145,6 +174,16 @@ def shrink_candidates(case, inner_candidates):
         c = dict(case)
         c['twin'] = ic
         yield c
+    for j, o in enumerate(case.get('others') or []):
+        if o is None:
+            continue
+        for ic in inner_candidates(o):
+            if cfg_sig(ic) != cfg_sig(o):
+                continue
+            c = dict(case)
+            c['others'] = list(case['others'])
+            c['others'][j] = ic
+            yield c
 
 
 def warm(gen_inner, run_inner, n=60):
